@@ -56,6 +56,18 @@ func c10Hash(c color.Color) color.RGBA64 {
 	return color.RGBA64{R: uint16((h >> 16) % (uint64(A) + 1)), G: uint16((h >> 32) % (uint64(A) + 1)), B: uint16((h >> 48) % (uint64(A) + 1)), A: A}
 }
 
+// c10Typed is a per-colour function whose result depends on the concrete colour it is handed (its
+// type and its own fields - the straight channels of a color.NRGBA, the Y/Cb/Cr of a color.YCbCr),
+// not only on what RGBA() reports: the function is to be applied to the colour the source's At returns.
+func c10Typed(c color.Color) color.RGBA64 {
+	h := fnv64([]byte(fmt.Sprintf("%T|%v", c, c)))
+	h ^= h >> 29
+	h *= 0xBF58476D1CE4E5B9
+	h ^= h >> 32
+	A := uint16(h) | 1
+	return color.RGBA64{R: uint16((h >> 16) % (uint64(A) + 1)), G: uint16((h >> 32) % (uint64(A) + 1)), B: uint16((h >> 48) % (uint64(A) + 1)), A: A}
+}
+
 func finite3(a, b, c float32) bool {
 	for _, v := range []float32{a, b, c} {
 		f := float64(v)
